@@ -6,6 +6,10 @@
 //	    file, range; generic-instantiation sub-errors flattened with "wrapped":depth), whether
 //	    ddperror.MakeAdvancedHandler panics on it (a) set up for the ROOT file like cmd/kddp does and
 //	    (b) set up for the diagnostic's own file; recovered panic / returned error of parser.Parse.
+//	{"id":..,"file":"rel/or/abs.ddp","cwd":"/dir","chain":true}   chdir to cwd, then exactly the wiring of
+//	    cmd/kddp/build_cmd.go: ONE ddperror.MakeAdvancedHandler(file as spelled, text of that file, w) receives
+//	    every diagnostic while parser.Parse runs; per diagnostic the printed text ("out") and a recovered panic
+//	    of the handler ("panic_chain") are reported in addition
 //	{"id":..,"text":"..","grid":[L,C]}                render every range in [0..L]x[0..C]x[0..L]x[0..C] through
 //	    MakeAdvancedHandler over `text`: bitstring, '1' = no panic
 //	{"id":..,"text":"..","ranges":[[sl,sc,el,ec],..],"other_file":bool}   explicit ranges (uint64)
@@ -32,6 +36,8 @@ type Req struct {
 	Grid      []uint      `json:"grid"`
 	Ranges    [][4]uint64 `json:"ranges"`
 	OtherFile bool        `json:"other_file"`
+	Cwd       string      `json:"cwd"`
+	Chain     bool        `json:"chain"`
 }
 
 type Diag struct {
@@ -47,6 +53,8 @@ type Diag struct {
 	PanicOwn   string `json:"panic_own,omitempty"`
 	OwnMissing bool   `json:"own_missing,omitempty"`
 	Msg        string `json:"msg"`
+	Out        string `json:"out,omitempty"`
+	PanicChain string `json:"panic_chain,omitempty"`
 }
 
 type Mod struct {
@@ -113,8 +121,40 @@ func flatten(out *[]Diag, e ddperror.Error, depth int, rootFile string, rootSrc 
 
 func parse(r Req) (o Resp) {
 	o.ID = r.ID
+	if r.Cwd != "" {
+		if err := os.Chdir(r.Cwd); err != nil {
+			o.Err = "chdir: " + err.Error()
+			o.Nil = true
+			return o
+		}
+	}
 	src, _ := os.ReadFile(r.File)
 	var raw []ddperror.Error
+	var outs, panics []string
+	handler := func(e ddperror.Error) { raw = append(raw, e) }
+	if r.Chain {
+		var buf bytes.Buffer
+		advanced := ddperror.MakeAdvancedHandler(r.File, src, &buf)
+		handler = func(e ddperror.Error) {
+			raw = append(raw, e)
+			buf.Reset()
+			pn := ""
+			func() {
+				defer func() {
+					if rec := recover(); rec != nil {
+						pn = fmt.Sprint(rec)
+					}
+				}()
+				advanced(e)
+			}()
+			t := buf.String()
+			if len(t) > 4000 {
+				t = t[:4000]
+			}
+			outs = append(outs, t)
+			panics = append(panics, pn)
+		}
+	}
 	mods := map[string]*ast.Module{}
 	func() {
 		defer func() {
@@ -125,7 +165,7 @@ func parse(r Req) (o Resp) {
 				}
 			}
 		}()
-		m, err := parser.Parse(parser.Options{FileName: r.File, Source: src, Modules: mods, ErrorHandler: func(e ddperror.Error) { raw = append(raw, e) }})
+		m, err := parser.Parse(parser.Options{FileName: r.File, Source: src, Modules: mods, ErrorHandler: handler})
 		if err != nil {
 			o.Err = err.Error()
 		}
@@ -137,8 +177,13 @@ func parse(r Req) (o Resp) {
 	}()
 	cache := map[string][]byte{r.File: src}
 	o.Diags = []Diag{}
-	for _, e := range raw {
+	for i, e := range raw {
+		at := len(o.Diags)
 		flatten(&o.Diags, e, 0, r.File, src, cache)
+		if r.Chain && i < len(outs) {
+			o.Diags[at].Out = outs[i]
+			o.Diags[at].PanicChain = panics[i]
+		}
 	}
 	o.Modules = []Mod{}
 	for p, m := range mods {
